@@ -13,7 +13,7 @@ from mc.engine import Harness, Result, V
 from mc.heapfp import try_fingerprint
 from mc.world import reset_globals
 
-CLASSES = ['A', 'B', 'C', 'B2', 'D']
+CLASSES = ['A', 'B', 'C', 'B2', 'D', 'E']
 
 
 class C13(Harness):
@@ -22,7 +22,7 @@ class C13(Harness):
     kind = 'bfs'
     technique = ('explicit-state BFS over class-level sets, add_parameter, cache-filling reads and instance operations on a real class hierarchy; '
                  'invariant: .param agrees with inspect.getattr_static / getattr on every class and instance in every reached state')
-    rule = ('state = heap fingerprint of the hierarchy A->B->C, A->B2, D(B, B2) and up to two instances; transition = one operation; the invariant is evaluated '
+    rule = ('state = heap fingerprint of the hierarchy A->B->C->E, A->B2, D(B, B2) and up to two instances; transition = one operation; the invariant is evaluated '
             'after every step, followed by a probe (watch + set on every instance, fresh instance of every class)')
     assumptions = ('non-dynamic values; parameters x (bounded Number), y (String), k (constant list), f (Filename resolved against a search path) and an added z',)
 
@@ -40,6 +40,7 @@ class C13(Harness):
                                                  'f': param.Filename(default='engine.py', search_paths=[os.path.join(pin.VERIF, 'mc')])})
         B = type('B', (A,), {})
         C = type('C', (B,), {})
+        E = type('E', (C,), {})          # a fourth level: not a direct subclass of any class that is assigned to
         B2 = type('B2', (A,), {'y': param.String(default='b2')})
         D = type('D', (B, B2), {})       # diamond: only the later base (B2) redeclares y
         inside = []
@@ -57,7 +58,7 @@ class C13(Harness):
                         inside.append(V('watcher-sees-other-value', 'inside a watcher told that %s.%s became %r, getattr gives %r' % (
                             getattr(holder, '__name__', 'instance'), e.name, e.new, got), name=e.name, level='class' if isinstance(holder, type) else 'instance'))
         A.param.watch(class_watcher, ['x', 'y'])
-        world.update({'param': param, 'A': A, 'B': B, 'C': C, 'B2': B2, 'D': D, 'inst': [], 'inside': inside})
+        world.update({'param': param, 'A': A, 'B': B, 'C': C, 'B2': B2, 'D': D, 'E': E, 'inst': [], 'inside': inside})
         return world
 
     def enabled(self, w):
@@ -73,7 +74,7 @@ class C13(Harness):
             ops.append(['csetp', K, 'z'])          # a Parameter object assigned as a class attribute
             ops.append(['csetp', K, 'x'])
         if len(w['inst']) < 2:
-            ops += [['new', 'B'], ['new', 'C'], ['new', 'A'], ['new', 'D']]
+            ops += [['new', 'B'], ['new', 'C'], ['new', 'A'], ['new', 'D'], ['new', 'E']]
         for i in range(len(w['inst'])):
             ops += [['iset', i, 'x', 5], ['iread', i], ['iset', i, 'y', 'w'], ['iset', i, 'f', 'pin.py']]
         return ops
